@@ -122,12 +122,12 @@ func (a aff) mentions(sub string) bool {
 type affEnv struct {
 	fn    *ssa.Function
 	bind  map[ssa.Value]aff // driver bindings (received integers, parameters of an inlined callee)
-	loops map[*ssa.Phi]string
+	loops map[*ssa.Phi]aff
 	seen  map[ssa.Value]bool
 }
 
 func newAffEnv(fn *ssa.Function) *affEnv {
-	return &affEnv{fn: fn, bind: map[ssa.Value]aff{}, loops: map[*ssa.Phi]string{}, seen: map[ssa.Value]bool{}}
+	return &affEnv{fn: fn, bind: map[ssa.Value]aff{}, loops: map[*ssa.Phi]aff{}, seen: map[ssa.Value]bool{}}
 }
 
 // pathOf renders a value reached from a parameter through fields, constant indices and niladic methods.
@@ -228,8 +228,8 @@ func (e *affEnv) eval(v ssa.Value) aff {
 		return aff{}
 	case *ssa.Phi:
 		// a counting loop: one edge is the start, the other is this phi plus a positive constant
-		if name, ok := e.loops[t]; ok {
-			return affSym(name)
+		if a, ok := e.loops[t]; ok {
+			return a
 		}
 		{
 			// one start edge, every other edge is this phi plus one positive constant
@@ -252,12 +252,14 @@ func (e *affEnv) eval(v ssa.Value) aff {
 			if shape && start != nil && step != nil {
 				if k, isK := e.eval(step.Y).isConst(); isK && k > 0 {
 					name := fmt.Sprintf("i#%d", len(e.loops))
-					e.loops[t] = name
+					e.loops[t] = affSym(name) // while the start is evaluated
 					st := e.eval(start)
 					if !st.ok {
+						delete(e.loops, t)
 						return aff{}
 					}
-					return affSym(name).add(st, 1)
+					e.loops[t] = affSym(name).add(st, 1)
+					return e.loops[t]
 				}
 			}
 		}
@@ -278,6 +280,40 @@ func (e *affEnv) eval(v ssa.Value) aff {
 	case *ssa.Call:
 		if b, ok := t.Call.Value.(*ssa.Builtin); ok && (b.Name() == "len" || b.Name() == "cap") && len(t.Call.Args) == 1 {
 			return e.lenOf(t.Call.Args[0], 0)
+		}
+		// a conversion method: func (w Wire) Int() int { return int(w) }
+		if callee := t.Call.StaticCallee(); callee != nil && len(t.Call.Args) == 1 && len(callee.Params) == 1 && len(callee.Blocks) > 0 && len(callee.Blocks) <= 4 {
+			// every return hands back the (converted) parameter; other exits panic
+			rets, all := 0, true
+			for _, cb := range callee.Blocks {
+				r, ok := cb.Instrs[len(cb.Instrs)-1].(*ssa.Return)
+				if !ok {
+					continue
+				}
+				rets++
+				if len(r.Results) != 1 {
+					all = false
+					continue
+				}
+				v := r.Results[0]
+				for {
+					if c, ok := v.(*ssa.Convert); ok {
+						v = c.X
+						continue
+					}
+					if c, ok := v.(*ssa.ChangeType); ok {
+						v = c.X
+						continue
+					}
+					break
+				}
+				if v != ssa.Value(callee.Params[0]) {
+					all = false
+				}
+			}
+			if rets > 0 && all {
+				return e.eval(t.Call.Args[0])
+			}
 		}
 		if p, ok := e.pathOf(t, 0); ok {
 			return affSym(p)
